@@ -36,7 +36,7 @@ RULE = ("Hypothesis draws (variant pp/ip/ea/dip/dea, bra/ket classes from "
         "independently. Non-trivial: order >= 1, or a coupling block, or a "
         "second-class diagonal block, or variant != pp; non-zero reference.")
 BUDGET = {"quick": 120, "thorough": 2400}
-N_EXAMPLES = {"quick": 9, "thorough": 110}
+N_EXAMPLES = {"quick": 14, "thorough": 140}
 ASSUMPTIONS = ["MP partitioning (f_ov = 0); C_I = a+_a a+_b a_i a_j"]
 
 _OBJ = {}
